@@ -3298,6 +3298,9 @@ Case_BaseLdurStur:
         };
 
         uint32_t type_opc = table[(dst_sz << 2) | src_sz];
+        if (type_opc == 0xFFu)
+          goto InvalidInstruction;
+
         opcode.reset(0b0001111000100010010000 << 10);
         opcode.add_imm(type_opc >> 4, 22);
         opcode.add_imm(type_opc & 15, 15);
